@@ -648,6 +648,39 @@ def m_reduce(interp, args, kwargs):
     return acc
 
 
+@model(itertools.takewhile)
+def m_takewhile(interp, args, kwargs):
+    from . import charclass
+    return charclass.m_takewhile(interp, args, kwargs)
+
+
+@model(builtins.range)
+def m_range(interp, args, kwargs):
+    """range with symbolic bounds: a sequence of symbolic length (step must be a concrete positive int)"""
+    args = [interp.resolve(a) if isinstance(a, (SOpt, SChoice)) else a for a in args]
+    if not any(isinstance(a, Sym) for a in args):
+        try:
+            return range(*args)
+        except Exception as e:
+            raise _pyraise(e)
+    if len(args) == 1:
+        start, stop, step = 0, args[0], 1
+    elif len(args) == 2:
+        start, stop, step = args[0], args[1], 1
+    else:
+        start, stop, step = args
+    if not isinstance(step, int) or isinstance(step, bool) or step != 1:
+        raise Unsupported('range with symbolic bounds and step != 1')
+    a, b = to_z3(start), to_z3(stop)
+    n = z3.simplify(z3.If(b > a, b - a, 0))
+    uid = interp.st.fresh_name('range')
+
+    def elem(interp2, idx_term):
+        return wrap(a + idx_term)
+
+    return SList(n, elem, uid)
+
+
 @model(functools.partial)
 def m_partial(interp, args, kwargs):
     from .interp import PartialObj
@@ -735,6 +768,10 @@ def m_str_join(interp, self, args, kwargs):
     if isinstance(src, (SOpt, SChoice)):
         src = interp.resolve(src)
     src = as_siter(interp, src)
+    from .mlist import MList
+    if isinstance(src, MList):
+        from . import mlist
+        return mlist.join(interp, self, src)       # list measures of mutable lists (pyvc.mlist); texts.prefix_join agrees
     if isinstance(src, (SList, SIter)):
         from . import texts
         if self != '':
@@ -748,6 +785,11 @@ def m_str_join(interp, self, args, kwargs):
                 return r
             return texts.join_all(interp, src)
         return texts.join_iter(interp, src)
+    from . import charclass
+    if isinstance(src, charclass.SCharIter):
+        if isinstance(self, str) and self == '':
+            return src.s
+        raise Unsupported('str.join of the characters of a symbolic string with a non-empty separator')
     items = list(interp.iterate(src))
     if not contains_sym(items, 1) and not isinstance(self, Sym):
         try:
